@@ -269,3 +269,15 @@ Theorem C05_kind_codes_are_the_enumeration :
   map (fun k => (kind_name k, kind_code k)) all_kinds = kind_values.
 Proof. exact kind_codes_are_the_enum. Qed.
 Print Assumptions C05_kind_codes_are_the_enumeration.
+
+(* slice assignment on a list-based collection (Model/Slice.v): an observer that is told "the elements the slice
+   held were removed, the new ones were added" (REMOVE / REMOVE_MANY with the old slice, ADD / ADD_MANY with the new
+   values - what EList.__setitem__ reports for a non-empty right-hand side) holds the real content as a multiset,
+   for every pair of bounds: new content + old slice  is a permutation of  old content + new values *)
+From Coq Require Import Permutation.
+From PyecoreV Require Import Model.Slice Proofs.SliceProofs.
+Theorem C05_slice_assignment_mirrors_as_a_multiset :
+  forall (a b : option Z) (ys l : list Z),
+    Permutation (py_setslice a b ys l ++ py_getslice a b l) (l ++ ys).
+Proof. intros a b ys l. exact (setslice_mirror a b ys l). Qed.
+Print Assumptions C05_slice_assignment_mirrors_as_a_multiset.
